@@ -825,6 +825,9 @@ impl<'p> Exec<'p> {
         }
         self.out.stats.ops += 1;
         self.out.stats.probe(if to == im.metric { "metric_identity" } else { "metric_change" });
+        if self.focus == "C18" {
+            self.out.stats.probe(&format!("pair_{:?}_to_{:?}", im.metric, to));
+        }
         match res {
             Ok(Ok(())) => {}
             Ok(Err(e)) => {
